@@ -28,7 +28,8 @@ LEVEL_NOTE = ("Trusted: Lean kernel; harness; compress/gzip, xz, bufio, the file
 TECHNIQUE = "Lean 4 proof (induction over rows / chunks for every width) + differential correspondence"
 LEAN_MODULES = ["Gv.Props.C02"]
 REQUIRED_THEOREMS = ["Gv.Props.C02." + n for n in ["roundtrip_fasta", "roundtrip_fasta_go", "roundtrip_stockholm",
-                                                     "roundtrip_nexus_counterexample", "roundtrip_nexus_patched_witness"]]
+                                                     "roundtrip_nexus_counterexample", "roundtrip_nexus_patched_witness",
+                                                     "autodetect_selects_written_format"]]
 TRUSTED = ["compress/gzip, github.com/ulikunitz/xz, bufio, os (temp files): .gz/.xz round trips are observed, not modelled",
            "version.Version of the harness build is the literal 'Unset' (Clustal header line)"]
 ASSUMPTIONS = ["the property's residue alphabet: IUPAC nucleotide codes ACGTU RYSWKM BDHV N or the 20 amino acids + B Z X, "
@@ -49,7 +50,8 @@ PARTIAL = [
     "Nexus: model + correspondence; the round trip was FALSE for the unrepaired parser (rows spelling a reserved word, "
     "roundtrip_nexus_counterexample; repaired in /repo 2d2dfb5, the model follows through the regenerated fact); the "
     "universal round-trip theorem for the repaired parser is open",
-    "multi-Phylip stream, auto-detection and chain-of-formats: modelled in the oracle (folds over the models), theorems open",
+    "auto-detection: proved (autodetect_selects_written_format: first byte of every writer's output)",
+    "multi-Phylip stream and chain-of-formats: modelled in the oracle (folds over the models), theorems open",
     ".gz/.xz files: observed on the implementation only (compression is a trusted external)",
 ]
 
